@@ -34,6 +34,88 @@ theorem Stale0.mono {s s' : St} {jf : LogFile Grp} (h : Stale0 s jf) (hq : s.seq
   · exact a h1
   · omega
 
+theorem MirrorL.of_none {s : St} {v : MView} (hl : s.limbo = none) : MirrorL s v ↔ Mirror s v := by
+  unfold MirrorL; rw [hl]
+
+theorem MirrorL.of_some {s : St} {v : MView} {u : MRec} (hl : s.limbo = some u) : MirrorL s v ↔ MirrorE s u v := by
+  unfold MirrorL; rw [hl]
+
+/-- the manifest descriptor clause under a change that keeps the descriptor, `CURRENT` and the ghost edit, away from
+    the adoption of a new manifest -/
+theorem MfdOK.transport {s s' : St} {d d' : Disk} (h : MfdOK s d)
+    (h1 : ∀ m, s.job.map (·.pc) ≠ some (JPc.rotRemove m)) (h2 : ∀ m, s'.job.map (·.pc) ≠ some (JPc.rotRemove m))
+    (e1 : s'.manifestFd = s.manifestFd) (e2 : d'.current = d.current) (e3 : s'.limbo = s.limbo) : MfdOK s' d' := by
+  unfold MfdOK
+  split
+  · rename_i m hm; exact absurd hm (h2 m)
+  · unfold MfdOK at h
+    split at h
+    · rename_i m hm; exact absurd hm (h1 m)
+    · rw [e1, e2, e3]; exact h
+
+/-- the limbo facts survive a change of the state that keeps the session, the job and the tables -/
+theorem LimboOK.frame {s s' : St} {d d' : Disk} (h : LimboOK s d) (el : s'.limbo = s.limbo)
+    (ef : s'.manifestFailed = s.manifestFailed) (ejn : s'.stJn = s.stJn) (esq : s'.stSq = s.stSq)
+    (elive : s'.live = s.live) (ejob : s'.job = s.job) (et : d'.tables = d.tables) (hq : s.seq ≤ s'.seq)
+    (hm : MustGrows s s') (hnf : s.nextFile ≤ s'.nextFile := by exact Nat.le_refl _) : LimboOK s' d' := by
+  unfold LimboOK at h ⊢
+  rw [el]
+  refine Holds'.imp (o := s.limbo) h (fun u hu => ?_)
+  obtain ⟨a, b, c, e, f, g, k0, k⟩ := hu
+  have htg : ∀ t, tableGrpsOf d' t = tableGrpsOf d t := fun t => by unfold tableGrpsOf; rw [et]
+  refine ⟨by rw [ef]; exact a, b, c, by rw [ejn]; exact e, by rw [esq]; exact f, ?_, by rw [ejob]; exact k0, ?_⟩
+  · intro t ht
+    rw [elive] at ht
+    rw [htg, esq]
+    exact g t ht
+  · rcases k with k | k
+    · exact Or.inl (by rw [ejob]; exact k)
+    · right
+      obtain ⟨k1, k2, k3⟩ := k
+      refine ⟨k1, k2, k3.imp (fun t ht => ⟨ht.1, Nat.lt_of_lt_of_le ht.2.1 hnf, ?_⟩)⟩
+      rw [et]
+      refine ht.2.2.imp (fun tf htf => ⟨htf.1, htf.2.1, htf.2.2.imp (fun g0 hg0 => ?_)⟩)
+      obtain ⟨m1, m2, m4, m5, m6, m7⟩ := hg0
+      refine ⟨m1, m2, ?_, m5, Nat.le_trans m6 (Nat.succ_le_succ hq), by rw [ejob]; exact m7⟩
+      intro hx
+      rcases hm g0 hx with h1 | h1
+      · exact m4 h1
+      · omega
+
+/-- … and the spawning of a job whose outputs get fresh numbers -/
+theorem LimboOK.spawn {s s' : St} {d d' : Disk} (h : LimboOK s d) (hj : s.job = none) {j' : Job}
+    (hj' : s'.job = some j') (houts : ∀ o ∈ j'.outs, s.nextFile ≤ o.1)
+    (hbc : j'.edit = none ∨ j'.pc.beforeCommit = true) (el : s'.limbo = s.limbo)
+    (ef : s'.manifestFailed = s.manifestFailed) (ejn : s'.stJn = s.stJn) (esq : s'.stSq = s.stSq)
+    (elive : s'.live = s.live) (et : d'.tables = d.tables) (hq : s.seq ≤ s'.seq)
+    (hm : MustGrows s s') (hnf : s.nextFile ≤ s'.nextFile) : LimboOK s' d' := by
+  unfold LimboOK at h ⊢
+  rw [el]
+  refine Holds'.imp (o := s.limbo) h (fun u hu => ?_)
+  obtain ⟨a, b, c, e, f, g, k0, k⟩ := hu
+  have htg : ∀ t, tableGrpsOf d' t = tableGrpsOf d t := fun t => by unfold tableGrpsOf; rw [et]
+  refine ⟨by rw [ef]; exact a, b, c, by rw [ejn]; exact e, by rw [esq]; exact f, ?_, by rw [hj']; exact hbc, ?_⟩
+  · intro t ht
+    rw [elive] at ht
+    rw [htg, esq]
+    exact g t ht
+  · rcases k with k | k
+    · rw [hj] at k; exact absurd k id
+    · right
+      obtain ⟨k1, k2, k3⟩ := k
+      refine ⟨k1, k2, k3.imp (fun t ht => ⟨ht.1, Nat.lt_of_lt_of_le ht.2.1 hnf, ?_⟩)⟩
+      rw [et]
+      refine ht.2.2.imp (fun tf htf => ⟨htf.1, htf.2.1, htf.2.2.imp (fun g0 hg0 => ?_)⟩)
+      obtain ⟨m1, m2, m4, m5, m6, m7⟩ := hg0
+      refine ⟨m1, m2, ?_, m5, Nat.le_trans m6 (Nat.succ_le_succ hq), ?_⟩
+      · intro hx
+        rcases hm g0 hx with h1 | h1
+        · exact m4 h1
+        · omega
+      · rw [hj']
+        intro o ho
+        exact Nat.lt_of_lt_of_le ht.2.1 (houts o ho)
+
 /-- a job is not disturbed by what the writer does -/
 theorem JobOK.writer {cfg : Cfg} {s : St} {d : Disk} {j : Job} (h : JobOK cfg s d j) (hr : s.phase = .running)
     (htr : s.tr = none) (w' : WPc) (i' : List Issue) (h' : Nat) (m' : List Grp) (q' : Nat) (ef' : Bool) (f : LogFile Grp → LogFile Grp)
@@ -174,12 +256,13 @@ theorem RunOK.writer {cfg : Cfg} {s : St} {d : Disk} (h : RunOK cfg s d)
     (hws : WSeqOK { s with w := w', issued := i', hi := h', mem := m', seq := q', everFailed := ef' }) (htr : s.tr = none) :
     RunOK cfg { s with w := w', issued := i', hi := h', mem := m', seq := q', everFailed := ef' }
       { d with journals := d.journals.modify s.jcur f } := by
-  obtain ⟨r1, r2, r3, r4, r5, r6, r7, r8, r9⟩ := h
+  obtain ⟨r1, r2, r3, r4, r5, r6, r7, r8, r9, r10⟩ := h
   have htr' : TrOK { s with w := w', issued := i', hi := h', mem := m', seq := q', everFailed := ef' } := by
     unfold TrOK
     show Holds' s.tr _
     rw [htr]; trivial
-  refine ⟨⟨r1.1, htr'⟩, r2, ?_, ?_, ?_, hws, r7.writer w' i' h' m' q' ef' f hq hef hnew hm, ?_, r9⟩
+  refine ⟨⟨r1.1, htr'⟩, r2, ?_, ?_, ?_, hws, r7.writer w' i' h' m' q' ef' f hq hef hnew hm, ?_, r9,
+    r10.frame rfl rfl rfl rfl rfl rfl rfl hq hm⟩
   · rw [holds_iff] at r3 ⊢
     obtain ⟨jf, hjf, _⟩ := r3
     refine ⟨f jf, ?_, hall jf hjf⟩
